@@ -14,7 +14,7 @@ def classify_crash(cr):
     if kind == 'hang':
         return (comp, 'hang')
     where = ''
-    for fn, tag in (('deltaPrune', 'deltaPrune'), ('sawtoothInterpolation', 'sawtoothInterpolation'), ('LPInterpolation', 'LPInterpolation'),
+    for fn, tag in (('updateSubOptimalPaths', 'updateSubOptimalPaths'), ('deltaPrune', 'deltaPrune'), ('sawtoothInterpolation', 'sawtoothInterpolation'), ('LPInterpolation', 'LPInterpolation'),
                     ('cleanUp', 'cleanUp'), ('makeNewPomdp', 'makeNewPomdp'), ('selectReachableBeliefs', 'selectReachableBeliefs'),
                     ('backupNode', 'backupNode'), ('samplePoints', 'samplePoints'), ('expandLeaf', 'expandLeaf'),
                     ('SARSOP::operator()', 'main_loop'), ('GapMin::operator()', 'main_loop')):
@@ -54,13 +54,17 @@ SPEC = {
         'AITB.POMDP.isInterp_ge', 'AITB.POMDP.Sound_step', 'AITB.POMDP.anytime_sound', 'AITB.POMDP.initial_sound',
         # bestConservativeAction as found / repaired, with the machine-checked witness
         'AITB.POMDP.conservativeAlpha_sound', 'AITB.POMDP.conservativeAlpha_sound_partial', 'AITB.POMDP.conservative_skip_witness_values',
+        # finite-horizon solvers, consistency of the enclosure, clamp witness, driver evaluators = reference families
+        'AITB.POMDP.backup_chain_sound', 'AITB.POMDP.pbvi_perseus_sound', 'AITB.POMDP.perseus_infinite_sound',
+        'AITB.POMDP.blindSub_le_mdpSuper', 'AITB.POMDP.lowerRef_le_upperRef', 'AITB.POMDP.blind_fast_start_unsafe_witness',
+        'AITB.POMDP.iterHV_eq', 'AITB.POMDP.upperRefV_eq', 'AITB.POMDP.lowerRefV_eq',
         'AITB.POMDP.mW_valid', 'AITB.POMDP.mW_ref_superSol', 'AITB.POMDP.ΓW_sound', 'AITB.POMDP.conservative_skip_counterexample',
     ],
     'gen_obligations': ['AITB.POMDP.src_blind_start_is_min', 'AITB.POMDP.src_fib_start_is_max', 'AITB.POMDP.src_fib_inner_is_max'],
     'harness': 'harness/c03.cpp',
     'level': 'proof',
     'timeout': {'quick': 900, 'thorough': 3000},
-    'case_timeout': 150,
+    'case_timeout': 240,
     'classify_crash': classify_crash,
     'rule': 'one case = one (POMDP, solver) pair; 10 fixed POMDPs (Tiger, 1-state clamp witnesses, corner/face initial beliefs, all-negative rewards) then '
             '40 (quick) / 600 (thorough) seeded dyadic POMDPs S<=4(5) A<=3 O<=3, discounts 1/2..15/16 (and 0.9/0.95/0.3), initial belief corner/face/interior; '
